@@ -21,12 +21,46 @@ pub mod rd {
 use vstd::prelude::*;
 use std::io::{Read, Result};
 //@@ include prelude/reader_opaque.rs
-// src/reader.rs: from_string — a reader over the bytes of the text, nothing read yet (its name.truncate(32) is C05.name)
+// src/reader.rs: from_string — a reader over the bytes of the text, nothing read yet. The REAL body is verified; its
+// name.truncate(32) on the pinned tree is C05.name (String::truncate panics when 32 is not a character boundary).
+pub uninterp spec fn byte_len(s: Seq<char>) -> nat;
+pub uninterp spec fn is_char_boundary(s: Seq<char>, n: int) -> bool;
+pub assume_specification[ String::truncate ](s: &mut String, n: usize)
+    requires n >= byte_len(old(s)@) || is_char_boundary(old(s)@, n as int);
+pub assume_specification[ String::as_bytes ](s: &String) -> (r: &[u8])
+    ensures r@ == super::ls::str_bytes(s@);
+// Reader::new over a byte slice (private constructor of src/reader.rs; contract assumed): nothing read yet, the stream is the slice
+impl<'a> Reader<&'a [u8]> {
+    #[verifier::external_body]
+    pub fn new(reader: &'a [u8], name: Option<String>) -> (r: Self)
+        ensures r.wf(), r.room(), r.cur() is None, r.name() == name, r.rest().len() == reader@.len(),
+            forall|i: int| 0 <= i < r.rest().len() ==> (#[trigger] r.rest()[i]) == Some(reader@[i]),
+    { unimplemented!() }
+}
+// s.chars().take(n).collect() (rewrite chars_model): the first n characters
 #[verifier::external_body]
-pub fn from_string(source: &String) -> (r: Reader<&[u8]>)
+pub struct VChars { _p: () }
+impl VChars {
+    pub uninterp spec fn seq(&self) -> Seq<char>;
+    #[verifier::external_body]
+    pub fn take(self, n: usize) -> (r: VChars) ensures r.seq() == self.seq().take(if n < self.seq().len() { n as int } else { self.seq().len() as int }) { unimplemented!() }
+    #[verifier::external_body]
+    pub fn collect(self) -> (r: String) ensures r@ == self.seq() { unimplemented!() }
+}
+pub trait VCharsOf { fn vchars(&self) -> (r: VChars); spec fn chars_spec(&self) -> Seq<char>; }
+impl VCharsOf for String {
+    open spec fn chars_spec(&self) -> Seq<char> { self@ }
+    #[verifier::external_body]
+    fn vchars(&self) -> (r: VChars) ensures r.seq() == self@ { unimplemented!() }
+}
+//@@ fn reader.from_string = src/reader.rs :: fn from_string
+//@@ ret r
+//@@ safety C05
+//@@ rewrite chars_model
+//@@ header
     ensures r.wf(), r.room(), r.cur() is None, r.rest().len() == super::ls::str_bytes(source@).len(),
-        forall|i: int| 0 <= i < r.rest().len() ==> (#[trigger] r.rest()[i]) == Some(super::ls::str_bytes(source@)[i]),
-{ unimplemented!() }
+        forall|i: int| 0 <= i < r.rest().len() ==> (#[trigger] r.rest()[i]) == Some(super::ls::str_bytes(source@)[i]), // @obl EXPR.from_string : C05 C13 C18
+//@@ endfn
 }
 use rd::*;
 pub mod u8s {
